@@ -9,6 +9,7 @@ env = dict(os.environ, CARGO_NET_OFFLINE='true')
 def run(cmd, cwd=wt, timeout=3000):
     p = subprocess.run(cmd, shell=True, cwd=cwd, stdout=subprocess.PIPE, stderr=subprocess.STDOUT, env=env, timeout=timeout)
     return p.returncode, p.stdout.decode('utf-8', 'replace')
+run('git checkout -- src'); run(f'git apply {out}/patch.diff')
 rc, st = run('git status --porcelain')
 untracked = [l[3:] for l in st.split('\n') if l.startswith('??') and not l[3:].startswith('target') and l[3:] != 'Cargo.lock']
 demos = [u for u in untracked if u.endswith('.rs') or u.endswith('/')]
@@ -42,9 +43,10 @@ def demo():
         allok = allok and rc2 == 0; outs.append(o[-600:])
     return allok, outs
 with_ok, o2 = demo(); log.append(f'demo with change: {"passes" if with_ok else "fails"}')
-run('git stash')
+# (git stash is shared between worktrees of one repository: use apply -R / apply of the delivered patch instead)
+run(f'git apply -R {out}/patch.diff')
 without_ok, o3 = demo(); log.append(f'demo without change: {"passes" if without_ok else "fails"}')
-run('git stash pop')
+run(f'git apply {out}/patch.diff')
 confirmed = ok1 and cmds and (not with_ok) and without_ok
 print('\n'.join(log)); print('CONFIRMED' if confirmed else 'NOT CONFIRMED')
 if not confirmed:
@@ -54,7 +56,7 @@ for f in os.listdir(out):
     if f.endswith('.log'): continue
     shutil.copy(os.path.join(out, f), dst)
 meta = json.load(open(os.path.join(out, 'meta.json')))
-meta['confirmed_by_me'] = log + ['commands: cargo test --workspace --no-fail-fast --offline (demo moved aside); ' + '; '.join(cmds) + ' with the change and after git stash']
+meta['confirmed_by_me'] = log + ['commands: cargo test --workspace --no-fail-fast --offline (demo moved aside); ' + '; '.join(cmds) + ' with the change and with the change reversed (git apply -R)']
 json.dump(meta, open(os.path.join(dst, 'meta.json'), 'w'), indent=1)
 subprocess.run(f'git -C /repo worktree remove --force {wt}', shell=True)
 shutil.rmtree(base, ignore_errors=True)
